@@ -502,3 +502,40 @@ def undefined_attributes(classes: Dict[str, ast.ClassDef], resolve_base) -> List
             if a not in defined and not (a.startswith("__") and a.endswith("__")):
                 out.append((ln, qual, a))
     return sorted(set(out))
+
+
+# ---------------------------------------------------------------------------------------------------------------
+TYPE_TESTS = ("isinstance", "is_future", "callable", "iscoroutine", "issubclass")
+
+
+def misdirected_type_tests(src: str) -> List[Tuple[int, str, str]]:
+    """[(lineno, tested name, text)] for `if [not] isinstance(X, T): Y = conv(Y) [else: Y = Y']` where the variable the type test
+    inspects is used in neither branch although the branches convert / select some other variable: the test decides the
+    representation of a value it does not look at (`if is_future(source): obs = from_future(other)`)."""
+    try:
+        tree = ast.parse(src)
+    except SyntaxError:
+        return []
+    out = []
+    for x in ast.walk(tree):
+        if not isinstance(x, (ast.If, ast.IfExp)):
+            continue
+        tst = x.test
+        if isinstance(tst, ast.UnaryOp) and isinstance(tst.op, ast.Not):
+            tst = tst.operand
+        if not (isinstance(tst, ast.Call) and isinstance(tst.func, ast.Name) and tst.func.id in TYPE_TESTS and tst.args and isinstance(tst.args[0], ast.Name)):
+            continue
+        X = tst.args[0].id
+        branches = (x.body if isinstance(x.body, list) else [x.body]) + (x.orelse if isinstance(x.orelse, list) else [x.orelse])
+        if any(isinstance(y, ast.Name) and y.id == X for b in branches for y in ast.walk(b)):
+            continue
+        converts = False
+        for b in branches:
+            vals = [b.value] if isinstance(b, (ast.Assign, ast.AnnAssign)) and getattr(b, "value", None) is not None else [b] if isinstance(b, ast.expr) else []
+            for v in vals:
+                callees = {id(c.func) for c in ast.walk(v) if isinstance(c, ast.Call)}
+                if any(isinstance(y, ast.Name) and isinstance(y.ctx, ast.Load) and id(y) not in callees for y in ast.walk(v)):
+                    converts = True
+        if converts:
+            out.append((x.lineno, X, ast.unparse(x.test)[:60]))
+    return sorted(set(out))
